@@ -321,4 +321,16 @@ theorem finding_C05_F4 :
     (interpretWord Finding.sy "^(1)".toList).map isAny = some true ∧
     (interpretWord Finding.sy "^1".toList).map isAny = some false := by decide
 
+/-- **Finding C05-F5.** Blanks other than single separating blanks silently change a rule: a leading
+    blank makes the head set empty (`add_dfta_constraints` then skips the rule as "primitive not
+    recognised"), two consecutive blanks insert an empty — unsatisfiable — argument pattern.  With
+    fixes_proposed/C05-F5.diff (`fixF5`) the same strings are read as `(+ 1 _)`. -/
+theorem finding_C05_F5 :
+    (parse Finding.sy " (+ 1 _)".toList).map (fun t => match t with | .func H _ => H.length | _ => 99) = some 0 ∧
+    (parse Finding.sy "(+ 1  _)".toList).map (fun t => match t with | .func H a => (H.length, a.length) | _ => (99, 99)) = some (1, 3) ∧
+    (parse { Finding.sy with fixF5 := true } " (+ 1  _ )".toList).map
+      (fun t => match t with | .func H [.allow S, .any] => (H.length, S.length) | _ => (99, 99)) = some (1, 1) ∧
+    (parse Finding.sy "(+ 1 _)".toList).map
+      (fun t => match t with | .func H [.allow S, .any] => (H.length, S.length) | _ => (99, 99)) = some (1, 1) := by decide
+
 end PS.C05
